@@ -69,11 +69,15 @@ var astRecv = []string{
 	"saltpack.rawBoxKeyFromSlice",
 }
 
-// gen/GoAstStreams.v: saltpack's reader adaptors and the write side of the armor layer
+// gen/GoAstStreams.v: saltpack's reader adaptors
 var astStreams = []string{
 	"saltpack.chunkReader_Read",
 	"saltpack.punctuatedReader_Read",
 	"saltpack.punctuatedReader_ReadUntilPunctuation",
+}
+
+// gen/GoAstEnc.v: the write side of the armor layer (base-X stream encoder, armor encoder)
+var astEnc = []string{
 	"saltpack.armorEncoderStream_Write",
 	"saltpack.armorEncoderStream_spaceAndOutputBuffer",
 	"saltpack.armorEncoderStream_Close",
